@@ -138,6 +138,8 @@ class C08(E1Prop):
 
     def begin(self, w, rng):
         super().begin(w, rng)
+        self.foreign = []     # live branches of third parties
+        self.ghosts = []      # names of foreign branches deleted since
         self.nprobes = 0
 
     def next_op(self, w, rng, step, nsteps):
@@ -164,6 +166,34 @@ class C08(E1Prop):
                 for o in seq:
                     o['dt'] = rng.choice([1, 5, 30])
                 self.script = seq
+            elif w.use_queue and rng.random() < 0.25:
+                # story: a foreign branch is there while the instance works,
+                # its owner deletes it, and pushes it again while a later
+                # job of the same instance (one that ends with a pruning
+                # push) is running
+                dests = ops.dest_branches(w.cfg)
+                ghost = 'feature/ghost-%d' % rng.randrange(1000)
+                self.ghosts.append(ghost)
+                seq = [{'op': 'third_party', 'action': {
+                            'do': 'create_branch', 'name': ghost,
+                            'base': None}},
+                       {'op': 'open_pr', 'actor': 'alice',
+                        'src': 'bugfix/TEST-780', 'dst': rng.choice(dests),
+                        'kind': 'new'},
+                       {'op': 'eval', 'p': 0},
+                       {'op': 'ci_green_all', 'which': ['src', 'w']},
+                       {'op': 'eval', 'p': 0},
+                       {'op': 'third_party', 'action': {
+                           'do': 'delete_branch', 'name': ghost}},
+                       {'op': 'ci_green_all', 'which': ['q']},
+                       {'op': 'probe', 'ev_pr': 0,
+                        'pick': rng.randrange(10 ** 9),
+                        'nmax': 10 if getattr(self, 'tier', 'quick') ==
+                        'quick' else 0}]
+                for o in seq:
+                    o['dt'] = rng.choice([1, 5, 30])
+                self.script = seq
+                self.nprobes += 1
             elif w.use_queue and rng.random() < 0.35:
                 # story: the event on an already queued PR whose queue builds
                 # are green (that job evaluates the PR, then hands over to
@@ -186,6 +216,18 @@ class C08(E1Prop):
                 self.nprobes += 1
         if getattr(self, 'script', None):
             return self.script.pop(0)
+        if rng.random() < 0.12:
+            # foreign branches come and go between jobs; a name that was
+            # there once may come back later (see actions())
+            if self.foreign and rng.random() < 0.6:
+                name = self.foreign.pop(rng.randrange(len(self.foreign)))
+                self.ghosts.append(name)
+                return {'op': 'third_party', 'dt': 5, 'action': {
+                    'do': 'delete_branch', 'name': name}}
+            name = 'feature/ghost-%d' % rng.randrange(1000)
+            self.foreign.append(name)
+            return {'op': 'third_party', 'dt': 5, 'action': {
+                'do': 'create_branch', 'name': name, 'base': None}}
         op = self.gen.next(w)
         tier = getattr(self, 'tier', 'quick')
         maxp = 3 if tier == 'quick' else 6
@@ -225,6 +267,12 @@ class C08(E1Prop):
         for n in sorted(picks):
             name = r.choice(['feature/tp-%d', 'user/dave/wip-%d',
                              'tp-%d']) % r.randrange(1000)
+            ghosts = [g for g in getattr(self, 'ghosts', [])
+                      if g not in w.heads()]
+            if ghosts and r.random() < 0.7:
+                # a branch name that existed earlier, was deleted by its
+                # owner, and is pushed again now
+                name = r.choice(ghosts)
             out.append({'kind': 'thirdparty', 'cmd': n, 'action': {
                 'do': 'create_branch', 'name': name,
                 'base': r.choice(sorted(w.heads()) or ['none'])}})
